@@ -132,6 +132,26 @@ def rule_run(chk, r):
            path=pat.path_lines(path, body_ticks[0]) if path else None, discr='drain-all-exits')
     if drains:
         dn = drains[0]
+        # the final drain is followed by fade-out ticks like the main loop is (steps of generator handlers of the last events, of `stopped` itself)
+        fades = [n for n in g.nodes if n.kind == 'for' and any(k == 'finally' for k, _a in n.ctx) and isinstance(n.ast.iter, ast.Call) and call_name(n.ast.iter) == 'range'
+                 and any(_ticks(m) for m in g.nodes if ('loop', n.ast) in m.ctx)]
+        exits_ = [e.dst for t_ in g.nodes if t_.kind == 'test' and t_.ast in ast.walk(dn.ast.test) for e in t_.succ if e.kind == 'F']
+        okf = bool(fades) and bool(exits_) and all(x in fades or Q.escapes(g, [x], lambda n: n in fades or n in resets, exc=()) is None and
+                                                     any(Q.reaches(x, fd_) for fd_ in fades) and
+                                                     all(Q.reachable_without(g, rs_, start=x, avoid_node=lambda n: n in fades, exc=()) is None for rs_ in resets)
+                                                     for x in exits_)
+        chk.ob('c', r.ref, 'the final drain is followed by fade-out ticks before run() lets go of the loop thread (also on the exit-code path)', okf, loc(r, dn.ast),
+               discr='fade-out-after-drain')
+        # … and it goes on across an exit request raised by a handler it dispatches: a SystemExit during the drain must not leave events (and `stopped`) behind
+        drain_ticks = [n for n in g.nodes if _ticks(n) and any(k == 'finally' for k, _a in n.ctx)]
+        # (the outermost try of run() does not count: its handlers are left once the finally clause runs)
+        inner = []
+        for n in drain_ticks:
+            tries = [a for k, a in n.ctx if k == 'try' and isinstance(a, ast.Try)]
+            fin_tries = [a for a in tries if any(isinstance(x, ast.Try) and x is a for fb in [getattr(t2, 'finalbody', []) for t2 in tries] for st_ in fb for x in ast.walk(st_))]
+            inner.append(any(any(h_.type is None or 'BaseException' in src(h_.type) or 'SystemExit' in src(h_.type) for h_ in a.handlers) for a in fin_tries))
+        chk.ob('c', r.ref, 'an exit request (SystemExit) raised by a handler during the final drain does not end the drain: what is queued, `stopped` included, is still '
+                           'dispatched before run() returns', bool(inner) and all(inner), loc(r, dn.ast), discr='drain-survives-exit-request')
         for rs in resets:
             seen, par = Q.search([g.entry], avoid_node=lambda n: n.kind == 'join' and n.ast is dn.ast, edge_ok=one_exc)
             q = Q.path_to(par, rs) if rs in seen else None
@@ -151,9 +171,23 @@ def rule_stop(chk, s):
     chk.ob('d', s.ref, 'stopped is fired only if the manager was running', q is None, loc(s, f.ast), path=pat.path_lines(q) if q else None,
            discr='stopped-if-running')
     clr = [n for n in g.nodes if n.kind == 'stmt' and 'self' in pat.stores_attr(n.ast, '_running', False)]
-    q = Q.reachable_without(g, f, avoid_node=lambda n: n in clr)
-    chk.ob('d', s.ref, 'the running flag is cleared before stopped is fired (a second stop() is a no-op)', q is None and bool(clr), loc(s, f.ast),
-           discr='flag-cleared-first')
+    # stopped is queued and the flag cleared back to back, in this order: run() loops while "running or queue non-empty", so with the event queued first there is
+    # no moment at which a stop() from another thread lets it see "not running, nothing queued" before `stopped` is there; and no handler can run in between
+    # (nothing that dispatches lies between the two), so a second stop() from a handler still finds the flag cleared
+    p1 = Q.escapes(g, [f], lambda n: n in clr, exits=('exit',))
+    between = [n for n in g.nodes if n.kind == 'stmt' and n is not f and n not in clr and Q.reaches(f, n) and any(Q.reaches(n, c_) for c_ in clr)
+               and any(True for _r, _c in pat.method_calls(n.ast, 'tick') + pat.method_calls(n.ast, 'flush'))]
+    early = [c_ for c_ in clr if Q.reachable_without(g, c_, avoid_node=lambda n: n is f) is not None]
+    chk.ob('d', s.ref, 'the running flag is cleared right after stopped was queued, on every path, with nothing dispatched in between (a second stop() is a no-op)',
+           p1 is None and bool(clr) and not between, loc(s, f.ast), path=pat.path_lines(p1, f) if p1 else None, discr='flag-cleared-first')
+    chk.ob('d', s.ref, 'stopped is queued before the running flag is cleared (run() cannot fade out and return between the two steps of a stop() from another thread)',
+           not early and bool(clr), loc(s, (early or clr or [f])[0].ast), discr='stopped-queued-before-flag')
+    # … and a loop that went idle while the flag was still set is woken up
+    wakes = [n for n in g.nodes if n.kind == 'stmt' and any(len(c.args) == 1 and pat.is_const(c.args[0], 0) for _r, c in pat.method_calls(n.ast, 'reduce_time_left'))]
+    okw = bool(wakes) and all(any(k == 'with' and 'self._lock' in src(getattr(a, 'context_expr', a)) for k, a in n.ctx) for n in wakes) and \
+        all(any(Q.reaches(c_, w_) for w_ in wakes) for c_ in clr)
+    chk.ob('d', s.ref, 'after clearing the flag stop() disarms the idle wait of a generate_events that is being handled, under the lock the dispatcher publishes it under',
+           okw, loc(s, (wakes or clr or [f])[0].ast), discr='idle-loop-woken')
     # not running ⇒ nothing: no fire, no tick reachable on the not-running branch
     raises = [n for n in g.nodes if n.kind == 'stmt' and isinstance(n.ast, ast.Raise) and n.ast.exc is not None and
               src(n.ast.exc).replace(' ', '') == f'SystemExit({code})']
@@ -209,6 +243,14 @@ def rule_clauses(chk, d, t):
                                 bad = pat.escapes_region(g, e.dst, reg, lambda n: n in rer, exits=('exit',), exc=())
             chk.ob('e', f.ref, 'a SystemExit caught when the manager is already stopped (stop(code) called by the handler itself) is re-raised',
                    found and bad is None, loc(f, h.ast), path=pat.path_lines(bad) if bad else None, discr='se-reraise-when-stopped')
+            if f is not t:
+                # the event being dispatched was taken from the queue before the stop: its remaining handlers still get it, and it is reported done
+                dones = [n for n in g.nodes if n.kind == 'stmt' and any(r == 'self' for r, _c in pat.method_calls(n.ast, '_eventDone'))]
+                leaves = [n for n in reg if n.kind == 'stmt' and (isinstance(n.ast, ast.Raise) or
+                                                                 any(r == 'self' and c.args for r, c in pat.method_calls(n.ast, 'stop')))]
+                chk.ob('f', f.ref, 'an exit request with a code raised by one handler does not abort the dispatch of the event in hand: the remaining handlers run and the '
+                                   'event is reported done before the code travels on', not leaves or not dones, loc(f, h.ast),
+                       detail='the clause re-raises / calls stop(code), which raises SystemExit(code) out of the handler loop', discr='exit-request-finishes-dispatch')
             for sn in stops:
                 q = pat.guarded_by(g, sn, pat.test_edge(lambda tt, pol: pol == 'T' and src(tt) in ('self.running', 'self._running')), start=h)
                 chk.ob('e', f.ref, 'stop(e.code) is used only while running (where it raises the code itself)', q is None, loc(f, sn.ast),
